@@ -93,7 +93,7 @@ class C04(Prop):
     level_note = "trusts vf/ref/crc.py (pinned to the 8 signed literals in the repo tests), CPython, icontract"
     anchors = ["aioswitcher.device.tools:sign_packet_with_crc_key"]
     min_evaluations = {"quick": 60_000, "thorough": 400_000}
-    budget_s = {"quick": 60, "thorough": 600}
+    budget_s = {"quick": 300, "thorough": 600}
 
     def selftest(self):
         crc_and_frames()
